@@ -71,6 +71,7 @@ pub fn gen_case(seed: u64, run: u64, faults: bool, real_every: u64) -> Case {
     let mut r = Rng::new(mix(seed, run));
     let mut sw = Swarm::draw(&mut r);
     sw.callbacks = sw.callbacks && r.chance(1, 2);
+    sw.widths = false;
     let opts = crate::c04::valid_opts(&mut r, &sw);
     let _ = Gen::new(&mut r, sw.clone());
     let n = r.range(1, 4);
@@ -622,14 +623,20 @@ pub fn run_case(case: &Case, stats: &mut Stats) -> RunReport {
     let mut seam_events = 0u64;
     macro_rules! violation {
         ($rule:expr, $ix:expr, $key:expr, $detail:expr) => {{
-            report.violation = Some(Violation {
-                rule: $rule.to_string(),
-                op_index: $ix,
-                key: $key,
-                detail: $detail,
-            });
-            report.hash = h.finish();
-            return report;
+            let key: String = $key;
+            if crate::is_known("C11", &key) {
+                // a recorded finding: count it and carry on with the run
+                stats.bump(&format!("known-finding.{}", key));
+            } else {
+                report.violation = Some(Violation {
+                    rule: $rule.to_string(),
+                    op_index: $ix,
+                    key,
+                    detail: $detail,
+                });
+                report.hash = h.finish();
+                return report;
+            }
         }};
     }
     for (ix, op) in case.ops.iter().enumerate() {
@@ -659,7 +666,10 @@ pub fn run_case(case: &Case, stats: &mut Stats) -> RunReport {
                 h.write_str(&what);
                 continue;
             }
-            Prediction::Bad(key, detail) => violation!("P3", ix, key, detail),
+            Prediction::Bad(key, detail) => {
+                violation!("P3", ix, key, detail);
+                continue;
+            }
         };
         // ---- P5: help/version/usage on stdout and completion output need a cause on the
         // command line; everything else that is not a value is a parse failure and belongs
